@@ -27,7 +27,7 @@ Definition calm (w : world) (o : op) : Prop :=
   | OPutAtFront _ _ _ | OPutAtBack _ _ _ | OPutBefore _ _ _ _ | OPutBehind _ _ _ _ | OPutAtPos _ _ _ _
   | OMoveFront _ _ | OMoveBack _ _ | OMoveBefore _ _ _ | OMoveBehind _ _ _ | OMovePos _ _ _
   | OGetMoveFront _ _ | OGetMoveBack _ _ | OSortKey _ | OSortVal _ | OSort _ | OReposition _ _
-  | OSetAutoSort _ _ _ | OCopyFrom _ _ _ | OCopyCtor _ _ | OIntersect _ _ => fst (step1 var dcap w o) = w
+  | OSetAutoSort _ _ _ | OCopyFrom _ _ _ | OCopyCtor _ _ => fst (step1 var dcap w o) = w
   | _ => True
   end.
 
@@ -181,6 +181,11 @@ Proof.
       pose proof (tscalm_remove_keys t (map fst (abs (gett w u))) _ _ (WT t V1)) as S.
       destruct (remove_keys (gett w t) (its w) (map fst (abs (gett w u)))) as [[h1 I1] c]. cbn [fst snd] in *.
       apply (tstep_calm w t (h1, I1) i W V1 O S R).
+  - (* Intersect *) vt W. destruct (t =? u); [exact Same|].
+    pose proof (intersect_ids_ok t (abs (gett w u)) (ids (gett w t)) _ _ (WT t V1)) as O.
+    pose proof (tscalm_intersect_ids t (abs (gett w u)) (ids (gett w t)) _ _ (WT t V1)) as S.
+    destruct (intersect_ids (gett w t) (its w) (abs (gett w u)) (ids (gett w t))) as [[h1 I1] c]. cbn [fst snd] in *.
+    apply (tstep_calm w t (h1, I1) i W V1 O S R).
   - (* Destroy *) vt W. pose proof (clear_ok t dcap _ _ true (WT t V1)) as O. pose proof (tscalm_clear t dcap _ _ true (WT t V1)) as S.
     rewrite (surjective_pairing (clear_tab dcap (gett w t) (its w) true)).
     set (hold := fst (clear_tab dcap (gett w t) (its w) true)) in *. set (I0 := snd (clear_tab dcap (gett w t) (its w) true)) in *.
